@@ -62,7 +62,7 @@ type GenReq struct {
 	Malformed bool
 }
 
-var bodySizes = []int{0, 1, 2, 7, 100, 1000, 4095, 4096, 4097, 8191, 8192, 8193, 12000, 65537}
+var bodySizes = []int{0, 1, 2, 7, 100, 1000, 4095, 4096, 4097, 8191, 8192, 8193, 12000, 65537, 600000}
 
 var methodsBody = []string{"POST", "PUT", "PATCH", "DELETE", "OPTIONS", "PURGE", "M-SEARCH"}
 var methodsAny = []string{"GET", "POST", "PUT", "HEAD", "DELETE", "OPTIONS", "PATCH", "PURGE", "M-SEARCH"}
